@@ -165,7 +165,13 @@ func Main(id string, level string, run func(*Ctx) error) {
 }
 
 func (c *Ctx) loadKnown() {
-	b, err := os.ReadFile(filepath.Join(c.Root, "known-findings.json"))
+	c.loadKnownFile(filepath.Join(c.Root, "known-findings.json"))
+	// development fragment of the property under construction (merged by the coordinator)
+	c.loadKnownFile(filepath.Join(c.Root, "dev", c.ID+"-findings.json"))
+}
+
+func (c *Ctx) loadKnownFile(path string) {
+	b, err := os.ReadFile(path)
 	if err != nil {
 		return
 	}
@@ -173,7 +179,7 @@ func (c *Ctx) loadKnown() {
 		Findings []KnownFinding `json:"findings"`
 	}
 	if err := json.Unmarshal(b, &all); err != nil {
-		fmt.Println("MACHINERY-ERROR: known-findings.json:", err)
+		fmt.Println("MACHINERY-ERROR:", path, err)
 		os.Exit(2)
 	}
 	for _, k := range all.Findings {
